@@ -33,6 +33,16 @@ def run_histories(pid, tier, seed, n_hist, oracle_state, oracle_refine, oracle_s
        oracle_single(op, a, b, before, after, answer) -> list of failure texts
        returns dict with statistics, failures (list of dict(what, replay lines)), disagreements, crash"""
     exe, drv, rebuilt = RC.build()
+
+    def guarded(fn):
+        """an oracle that cannot even evaluate the state of the implementation (indices out of range …) reports that"""
+        def g(*a):
+            try:
+                return fn(*a)
+            except Exception as e:
+                return ["the implementation's state is so inconsistent that the oracle cannot evaluate it (%s: %s)" % (type(e).__name__, e)]
+        return g
+    oracle_state, oracle_refine, oracle_single = guarded(oracle_state), guarded(oracle_refine), guarded(oracle_single)
     stats = {"histories": 0, "lines": 0, "passes": 0, "splits": 0, "merges": 0, "single_split": 0, "single_merge": 0,
              "single_swap": 0, "swap_noop": 0, "rebases": 0, "faces_max": 0, "threw": 0, "conforming_passes": 0, "canmerge_false": 0,
              "mesh_sizes": {}, "displacements": {}}
@@ -136,7 +146,8 @@ def run_histories(pid, tier, seed, n_hist, oracle_state, oracle_refine, oracle_s
                     break
                 ls = []
                 for (x, y, _, _) in before.edges:
-                    ls.append(math.sqrt(sum((before.nodes[x]["pos"][k] - before.nodes[y]["pos"][k]) ** 2 for k in range(3))))
+                    if x < len(before.nodes) and y < len(before.nodes):
+                        ls.append(math.sqrt(sum((before.nodes[x]["pos"][k] - before.nodes[y]["pos"][k]) ** 2 for k in range(3))))
                 if not ls:
                     break
                 lmin, lmax = min(ls) * 0.99, max(ls) * 1.01
